@@ -36,12 +36,16 @@ func inflightCases() []Case {
 		}
 	}
 	cs = append(cs, talkativeCases()...)
+	cs = append(cs, acceptCases()...)
 	return append(cs, sessQueueCases()...)
 }
 
 func runInflight(c Case) (f *fail) {
 	if strings.HasPrefix(c.Scenario, "talkative-server") {
 		return runTalkative(c)
+	}
+	if strings.HasPrefix(c.Scenario, "accept-during-close/") {
+		return runAccept(c)
 	}
 	if strings.HasPrefix(c.Scenario, "session-queue/") {
 		return runSessQueue(c)
